@@ -8,6 +8,22 @@ package main
 // mechanically rewritten copies in which sync / semaphore / io.Pipe / go statements are
 // the scheduler-aware shims of lsverif/vsync, so every lock acquisition is a scheduling
 // point controlled by lsverif/vsched.
+//
+//	lsmc-c12 c12                      explore (parent: one worker subprocess per scenario), then the race pass
+//	lsmc-c12 c12 --replay <file>      re-execute one recorded schedule step by step; exit 1 if it still violates
+//	lsmc-c12 c12 --race-pass          only the free-running -race pass (needs <binary>-race next to the binary)
+//	lsmc-c12 c12 --list               scenario table
+//	lsmc-c12 c12worker <scn> <seconds> <min-bound> <max-bound>   (internal)
+//
+// Environment: C12_ONLY (comma-separated names/globs over ALL scenarios), C12_MAXBOUND (2), C12_PAR (6),
+// C12_FS=off|mut|all, C12_SQL=on|off, C12_PIPE=handoff|prefer|preempt, C12_LEAF (non-preemptible objects),
+// C12_NO_RACE=1, LSMC_BUDGET_S (exploration budget; the race pass adds 25 s quick / 5 min thorough).
+//
+// Violation kinds: deadlock, livelock-horizon, panic, lock-leaked, duplicate-upload, lock-discipline,
+// instance-count, close-incomplete, handles-leaked-after-close, unmanaged-instance-open, replication-wedged,
+// final-sync-hangs, final-close-hangs, handles-leaked-after-final-close, read-lock-leaked, the C01 kinds of
+// scn.AckOracle (restore-differs, restore-failed, integrity-check-failed), the C02 kinds of c02Oracle,
+// snapshot-invalid, snapshot-content-mismatch, data-race (race pass). Signature: kind|scenario|results|class.
 
 import (
 	"bytes"
@@ -686,6 +702,7 @@ type c12ScnResult struct {
 	Violations       []*c12Violation  `json:"violations,omitempty"`
 	Samples          []c12Sample      `json:"samples,omitempty"`
 	HarnessErrors    []string         `json:"harness_errors,omitempty"`
+	Unconfirmed      []string         `json:"unconfirmed_violations,omitempty"` // outcome differed when the schedule was replayed: not reported
 	Collapsed        int64            `json:"collapsed_points"`
 	UnmanagedTouches int64            `json:"unmanaged_touches"`
 	UnmanagedSample  []string         `json:"unmanaged_sample,omitempty"`
@@ -810,6 +827,9 @@ func c12Explore(sc *c12Scenario, budget time.Duration, minBound, maxBound int) *
 	for _, sg := range sigs {
 		v := bySig[sg]
 		ok := true
+		if strings.Contains(fatal, "did not reach a scheduling point") {
+			break // a thread of the stuck execution is still running somewhere: no further executions in this process
+		}
 		for i := 0; i < 2 && ok && c12Abandoned < 60; i++ {
 			_, o, err := c12Exec(sc, v.Choices, nil)
 			if err != nil || o.Harness != "" {
@@ -825,7 +845,11 @@ func c12Explore(sc *c12Scenario, budget time.Duration, minBound, maxBound int) *
 			}
 			if !found {
 				ok = false
-				res.HarnessErrors = append(res.HarnessErrors, fmt.Sprintf("violation %s did not reproduce when its schedule %v was replayed (nondeterminism in the harness): not reported", sg, v.Choices))
+				var got []string
+				for _, p := range o.Problems {
+					got = append(got, c12Signature(sc, p, o))
+				}
+				res.Unconfirmed = append(res.Unconfirmed, fmt.Sprintf("%s: replaying its schedule (%d choices, %d preemptions) gave %v instead; not reported (the outcome depends on something outside the schedule, e.g. wall-clock timestamps inside file contents)", sg, len(v.Choices), v.Preemptions, got))
 			}
 		}
 		v.Confirmed = ok
@@ -956,8 +980,8 @@ func c12(args []string) int {
 		fmt.Fprintln(os.Stderr, "c12: no scenario selected")
 		return 2
 	}
-	budget := ev.Budget(95*time.Second, 45*time.Minute)
-	raceBudget := 30 * time.Second
+	budget := ev.Budget(80*time.Second, 45*time.Minute)
+	raceBudget := 25 * time.Second
 	if thorough {
 		raceBudget = 5 * time.Minute
 	}
@@ -1034,7 +1058,7 @@ func c12(args []string) int {
 		distinct                                               int
 		perScn                                                 []map[string]any
 		samples                                                []any
-		nonColliding, incomplete, harnessErrs                  []string
+		nonColliding, incomplete, harnessErrs, unconfirmed     []string
 		minBound                                               = 99
 		allBound1                                              = true
 	)
@@ -1066,6 +1090,7 @@ func c12(args []string) int {
 		for _, h := range r.HarnessErrors {
 			harnessErrs = append(harnessErrs, sc.Name+": "+h)
 		}
+		unconfirmed = append(unconfirmed, r.Unconfirmed...)
 		var outs []string
 		for k, n := range r.Outcomes {
 			outs = append(outs, fmt.Sprintf("%dx %s", n, k))
@@ -1132,6 +1157,7 @@ func c12(args []string) int {
 			"sql_points":                 c12SQLPoints,
 			"race_pass":                  race,
 			"harness_errors":             harnessErrs,
+			"unconfirmed_violations":     unconfirmed,
 			"exploration_wall_s":         exploreWall,
 			"parallel_workers":           par,
 			"phase_a_cap_per_scenario_s": capA.Seconds(),
@@ -1201,6 +1227,7 @@ func c12Merge(a, b *c12ScnResult) *c12ScnResult {
 		a.Samples = append(a.Samples, b.Samples...)
 	}
 	a.HarnessErrors = append(a.HarnessErrors, b.HarnessErrors...)
+	a.Unconfirmed = append(a.Unconfirmed, b.Unconfirmed...)
 	a.Collapsed += b.Collapsed
 	a.UnmanagedTouches += b.UnmanagedTouches
 	if len(a.UnmanagedSample) == 0 {
